@@ -70,6 +70,16 @@ func (e *Engine) extern(fr *Frame, st *State, callee *ssa.Function, args []Value
 	case "time.Now":
 		ts := freshTerms("now", callee.Signature.Results().At(0).Type())
 		return []Value{{T: ts}}
+	case "time.NewTicker", "time.NewTimer":
+		// a fresh, non-nil ticker/timer object with arbitrary content
+		e.assumedExterns[name+": returns a fresh non-nil object (no effect on modelled state)"] = true
+		t := callee.Signature.Results().At(0).Type().(*types.Pointer).Elem()
+		a := e.allocObject(st, t)
+		for _, l := range leavesOf(t) {
+			mn := objMemName(t, l)
+			st.mems[mn] = e.mem(st, mn, objKS, l.sort).Write([]*Term{a.ref}, FreshVar("ticker."+l.path, l.sort))
+		}
+		return []Value{{A: a}}
 	case "(*sync.Pool).Put":
 		return []Value{}
 	case "(*sync.Pool).Get":
@@ -198,7 +208,7 @@ func (e *Engine) externInvoke(fr *Frame, st *State, key string, c *ssa.CallCommo
 	case strings.HasSuffix(key, "PacketConn).WriteTo"):
 		// the connection: the frame is recorded in the ghost wire log; the call
 		// itself is total, does not touch modelled memory and may fail
-		e.wireSend(st, args[0].T)
+		e.wireSend(fr, st, args[0].T, site)
 		e.assumedExterns["net.PacketConn.WriteTo: total, no effect on modelled state (frames are recorded in the ghost wire log)"] = true
 		return e.havocResults(st, c.Signature(), "writeto")
 	case strings.HasSuffix(key, "(error).Error"):
@@ -212,7 +222,7 @@ func (e *Engine) externInvoke(fr *Frame, st *State, key string, c *ssa.CallCommo
 func (e *Engine) externMods(callee *ssa.Function, c *ssa.CallCommon) ([]string, bool) {
 	name := fullName(callee)
 	switch {
-	case name == "bytes.Equal", strings.HasPrefix(name, "(*sync."), name == "fmt.Errorf", name == "errors.New", name == "time.Now", name == "errors.Is":
+	case name == "bytes.Equal", strings.HasPrefix(name, "(*sync."), name == "fmt.Errorf", name == "errors.New", name == "time.Now", name == "errors.Is", name == "time.NewTicker", name == "time.NewTimer":
 		return nil, true
 	case strings.HasPrefix(name, "sync/atomic."):
 		set := map[string]bool{}
